@@ -487,6 +487,7 @@ func main() {
 		c04(r, *tier, *shard, *nshard)
 	case "C05":
 		c05(r, *tier, *shard, *nshard)
+		c05Concurrent(r, *tier, *shard, *nshard)
 	default:
 		os.Exit(2)
 	}
